@@ -530,6 +530,9 @@ type ReadParams struct {
 	Signer *sim.Wallet
 	// Sender nil = the blobber's operational wallet (the contract does not check the sender).
 	Sender *sim.Wallet
+	// SignedCounter, when set, is the counter the client really signed; the marker then carries Counter with that
+	// signature (a marker altered after signing).
+	SignedCounter *int64
 }
 
 // ReadRedeem builds read_redeem with a signed read marker.
@@ -558,8 +561,12 @@ func (w *World) ReadRedeem(p ReadParams) *transaction.Transaction {
 	}
 	rm := readMarker{ClientID: p.Client.ID, ClientPublicKey: p.Client.PublicKey, BlobberID: p.Blobber.ID(),
 		AllocationID: p.AllocID, OwnerID: owner, Timestamp: ts, ReadCounter: p.Counter}
+	signedCtr := rm.ReadCounter
+	if p.SignedCounter != nil {
+		signedCtr = *p.SignedCounter
+	}
 	hashData := fmt.Sprintf("%v:%v:%v:%v:%v:%v:%v", rm.AllocationID, rm.BlobberID, rm.ClientID, rm.ClientPublicKey,
-		rm.OwnerID, rm.ReadCounter, rm.Timestamp)
+		rm.OwnerID, signedCtr, rm.Timestamp)
 	sig, err := signer.Scheme.Sign(encryption.Hash(hashData))
 	if err != nil {
 		panic(err)
@@ -716,6 +723,11 @@ type FreeParams struct {
 
 // FreeAllocation builds free_allocation_request with a marker signed by the assigner.
 func (w *World) FreeAllocation(p FreeParams) *transaction.Transaction {
+	return w.FreeAllocationFrom(p.Recipient, p)
+}
+
+// FreeAllocationFrom is FreeAllocation submitted by another wallet than the marker's recipient.
+func (w *World) FreeAllocationFrom(sender *sim.Wallet, p FreeParams) *transaction.Transaction {
 	if p.Blobbers == nil {
 		n := 6
 		if c, ok, _ := w.View().Config(); ok {
@@ -745,7 +757,7 @@ func (w *World) FreeAllocation(p FreeParams) *transaction.Transaction {
 		Marker             string   `json:"marker"`
 		Blobbers           []string `json:"blobbers"`
 	}{p.Recipient.PublicKey, mustJSON(fsm), p.Blobbers}
-	return w.call(p.Recipient, "free_allocation_request", in, 0)
+	return w.call(sender, "free_allocation_request", in, 0)
 }
 
 // ---------------------------------------------------------------------------
